@@ -412,6 +412,11 @@ Proof.
   destruct (contains "QTY" (odisplay o)) eqn:C; [right; auto|left; reflexivity].
 Qed.
 
+(* an IndexedSymbol without its index prints as its display name too *)
+Theorem printing_bare_uses_display o :
+  okind o = KIndexed -> pp_bare o = PText (odisplay o).
+Proof. intros K. unfold pp_bare, pp_name. rewrite K. reflexivity. Qed.
+
 Definition given_display (o : sop) : option string :=
   match o with
   | NewSymbol d _ _ _ | NewIndexed d _ _ _ | NewFunction d _ _ _ | NewQuantity d _ _ | NewVector d _ _ => d
